@@ -746,7 +746,7 @@ struct Explorer {
     for (auto& rc : r.cmds) last[rc.spec.id()] = &rc;
     for (auto& kv : last) {
       const RunCmd& rc = *kv.second;
-      if (rc.spec.rsp.empty() || !rc.finished) continue;
+      if (rc.spec.rsp.empty() || !rc.finished || rc.unreaped) continue;
       bool exists = after.Get(rc.spec.rsp) != nullptr;
       if (rc.status == 0 && exists) {
         Violation x; x.prop = "C16"; x.clause = "rspfile-left-after-success";
